@@ -202,6 +202,12 @@ func (m Message) ClearString() string {
 			switch v := v.(type) {
 			case Message:
 				args[i] = v.ClearString()
+			case *Message:
+				if v != nil {
+					args[i] = v.ClearString()
+				} else {
+					args[i] = ""
+				}
 			case string:
 				args[i], _ = TransCtrlSeq(v, false) // a plain argument may carry formatting codes too
 			default:
